@@ -94,14 +94,17 @@ def expandShortcuts : List (Leaf × Option (Int × Sc)) → PassSt → PassSt
   | [], st => st
   | (v, b) :: rest, st => expandShortcuts rest (stepPass st v b)
 
-/-- `update_with_new_values`, first loop: every shortcut is bound to the first of its nodes that is still present,
-    and emptied -/
+/-- `update_with_new_values`, first loop, one shortcut: it is bound to the first of its nodes that is still
+    present, and emptied -/
+def bindOne (vals : List Leaf) (slots : List (Leaf × Option (Int × Sc))) (p : Int × Sc) :
+    List (Leaf × Option (Int × Sc)) :=
+  match p.2.nodes.find? (fun n => vals.any (fun v => v.id == n.id)) with
+  | none => slots
+  | some n => slots.map (fun q => if q.1.id == n.id then (q.1, some (p.1, { p.2 with nodes := [] })) else q)
+
+/-- `update_with_new_values`, first loop -/
 def bindShortcuts (shortcuts : List (Int × Sc)) (vals : List Leaf) : List (Leaf × Option (Int × Sc)) :=
-  shortcuts.foldl (fun slots (sid, s) =>
-      match s.nodes.find? (fun n => vals.any (fun v => v.id == n.id)) with
-      | none => slots
-      | some n => slots.map (fun (v, b) => if v.id == n.id then (v, some (sid, { s with nodes := [] })) else (v, b)))
-    (vals.map (fun v => (v, none)))
+  shortcuts.foldl (bindOne vals) (vals.map (fun v => (v, none)))
 
 /-- the final pop: "pop off final shortcut if it's a jump the user left off" -/
 def popTrailingJump (items : List Item) : List Item :=
